@@ -1,8 +1,8 @@
 package props
 
 import (
-	math2 "math"
 	"fmt"
+	math2 "math"
 	"strconv"
 	"strings"
 
